@@ -1533,3 +1533,58 @@ def r_domain_clamped(ctx, f: FunctionInfo, rule="R-GUARD", chain=None):
                f"`{unparse(bad[0])[:80]}`: the argument is a difference (or a computed quantity) that reaches the edge of the domain exactly for identical / pure inputs; "
                "rounding of a few ulp makes it negative (or > 1) and the result is nan", bad[0] if bad else None, chain=chain)
     return sites
+
+
+# ---------------------------------------------------------------------------------------------
+def r_hermitian_solver_operand(ctx, f: FunctionInfo, rule="R-PRED", chain=None):
+    """np.linalg.eigh / eigvalsh / scipy.linalg.eigh read ONE triangle of their argument: they are only meaningful on Hermitian operands.
+    A bare product X @ Y of two different operators (not of the forms A @ Dagger(A), Dagger(A) @ A, A @ H @ Dagger(A)) is not Hermitian
+    in general -- e.g. rho @ rho_tilde in the concurrence formula has a real spectrum but is not a Hermitian matrix."""
+    model = ctx.model
+    from .norm import Normalizer as _N
+    N = _N(model, f, inline=True)
+    sites, bad = 0, None
+    for c in walk_no_nested(f.node):
+        if isinstance(c, ast.Call) and c.args and (model.resolve_call(f, c).key or "") in ("numpy.linalg.eigh", "numpy.linalg.eigvalsh", "scipy.linalg.eigh", "scipy.linalg.eigvalsh"):
+            sites += 1
+            t = N(c.args[0])
+            if t[0] == "@":
+                fs = list(t[1])
+                sym = len(fs) >= 2 and all((fs[i] == ("dag", fs[-1 - i])) or (fs[-1 - i] == ("dag", fs[i])) or (i == len(fs) - 1 - i) for i in range(len(fs) // 2 + 1))
+                if not sym:
+                    bad = c
+    if sites:
+        ctx.ob(rule, f, "Hermitian eigen-solvers are applied to Hermitian operands (not to a bare product of two operators)", bad is None,
+               f"{sites} call(s) on Hermitian-shaped operands" if bad is None else
+               f"`{unparse(bad)[:80]}`: the operand is a product X @ Y that is not of the form A @ Dagger(A) / A @ H @ Dagger(A): it is not Hermitian in general, and eigh / eigvalsh then "
+               "silently diagonalise the Hermitian matrix built from one triangle (wrong eigenvalues whenever X and Y do not commute)", bad, chain=chain)
+    return sites
+
+
+# ---------------------------------------------------------------------------------------------
+def r_values_not_rounded(ctx, f: FunctionInfo, rule="R-ROUND", chain=None):
+    """A constructor of a named state / standard matrix returns its amplitudes as computed.  Rounding to a fixed number of
+    decimals (np.around(x, 4)) makes 1/sqrt(3) into 0.5774: the vector is no longer a unit vector (norm^2 = 1.00006) and the
+    defining identities hold only to 1e-4.  Rounding *without* decimals is how dimensions are inferred and is not this rule's."""
+    bad, sites = None, 0
+    returned = set()
+    for n in walk_no_nested(f.node):
+        if isinstance(n, ast.Return) and n.value is not None:
+            returned |= {x.id for x in ast.walk(n.value) if isinstance(x, ast.Name)}
+    for n in walk_no_nested(f.node):
+        if not isinstance(n, ast.Call):
+            continue
+        nm = n.func.attr if isinstance(n.func, ast.Attribute) else n.func.id if isinstance(n.func, ast.Name) else ""
+        if nm not in ("around", "round", "round_"):
+            continue
+        sites += 1
+        is_method = isinstance(n.func, ast.Attribute) and not (isinstance(n.func.value, ast.Name) and n.func.value.id in ("np", "numpy"))
+        dec = [kw.value for kw in n.keywords if kw.arg in ("decimals", "ndigits")] + list(n.args[(0 if is_method else 1):(1 if is_method else 2)])
+        if dec and not (isinstance(dec[0], ast.Constant) and dec[0].value in (0, None)):
+            bad = bad or n
+    key = "returned amplitudes / entries are not rounded to a fixed number of decimals"
+    if bad is not None:
+        ctx.ob(rule, f, key, False, f"`{unparse(bad)[:70]}` rounds values to {unparse(bad.args[-1] if bad.args else bad.keywords[0].value)} decimals: "
+               "irrational amplitudes (1/sqrt(n)) are truncated, so the result is not normalised and its defining identities fail beyond that precision", bad, chain=chain)
+    else:
+        ctx.ob(rule, f, key, True, f"{sites} rounding call(s), none with a decimals argument", chain=chain)
